@@ -20,10 +20,11 @@ const (
 	KTuple              // multiple results
 	KUnit               // no value
 	KMap                // spec-level map Int -> Int: (Array Int Int)
+	KSMap               // spec-level map Int -> String: (Array Int String)
 )
 
 func (k Kind) String() string {
-	return [...]string{"int", "bool", "string", "bytes", "ref", "struct", "tuple", "unit", "map"}[k]
+	return [...]string{"int", "bool", "string", "bytes", "ref", "struct", "tuple", "unit", "map", "smap"}[k]
 }
 
 type Val struct {
@@ -65,6 +66,8 @@ func sortsOf(k Kind) []string {
 		return []string{"String", "Bool"}
 	case KMap:
 		return []string{"(Array Int Int)"}
+	case KSMap:
+		return []string{"(Array Int String)"}
 	}
 	return nil
 }
